@@ -286,6 +286,15 @@ func exhaustive(run *vc.Run) {
 		&Graph{Root: Ar(Ar(P("string")))},
 		&Graph{UTs: []*UT{{Name: "T0", A: P("string")}, {Name: "T1", UID: "u1", A: Ar(Rf(0))}}, Root: O(Fd("a", Rf(0)), Fd("b", Rf(1)), Fd("c", Mp(Rf(0), Rf(1))))},
 	)
+	// mutually recursive bases: which type of the cycle a back edge points to must show in the hash
+	bases = append(bases,
+		&Graph{UTs: []*UT{{Name: "T0", A: O(Fd("l", Rf(1)), Fd("r", P("string")))}, {Name: "T1", UID: "u1", A: O(Fd("l", Rf(0)), Fd("r", P("int")))}}, Root: Rf(0)},
+		&Graph{UTs: []*UT{{Name: "T0", A: O(Fd("l", Rf(1)), Fd("r", P("string")))}, {Name: "T1", UID: "u1", A: O(Fd("m", Mp(P("string"), Rf(0))), Fd("r", P("int")))}}, Root: O(Fd("a", Rf(0)), Fd("b", Rf(1)))},
+		&Graph{UTs: []*UT{{Name: "T0", A: O(Fd("n", Ar(Rf(1))), Fd("v", P("string")))}, {Name: "T1", UID: "u1", A: O(Fd("n", Rf(2)), Fd("v", P("int")))},
+			{Name: "T2", UID: "u2", A: O(Fd("n", Rf(0)), Fd("w", P("boolean")))}}, Root: Rf(0)},
+		&Graph{UTs: []*UT{{Name: "T0", A: O(Fd("n", Rf(1)), Fd("s", Rf(0)))}, {Name: "T1", UID: "u1", A: O(Fd("n", Rf(2)), Fd("v", P("int")))},
+			{Name: "T2", UID: "u2", A: O(Fd("n", Rf(1)), Fd("o", Rf(0)), Fd("w", P("boolean")))}}, Root: Rf(0)},
+	)
 	for bi, base := range bases {
 		for _, c := range diffClasses {
 			_, _, total := diffAt(base, c, -1, 0)
